@@ -175,7 +175,7 @@ def main():
         }],
         "checks": checks,
         "not_applicable": na,
-        "notes": "Entry point ./check <ID> --tier quick|thorough; exit 0/1/2 (2 = inconclusive or infrastructure, never a verdict). VERIF_SEED selects the seed (default 1). The thorough tier appends a coverage-guided libFuzzer stage (tools/fuzz_stage.sh; needs the nightly toolchain, otherwise it is skipped and recorded as such). known_findings.json lists 1 recorded and 12 repaired defects; seeded/ holds 146 confirmed breaking changes with the check that catches each (DESIGN.md section 12).",
+        "notes": "Entry point ./check <ID> --tier quick|thorough; exit 0/1/2 (2 = inconclusive or infrastructure, never a verdict). VERIF_SEED selects the seed (default 1). The thorough tier appends a coverage-guided libFuzzer stage (tools/fuzz_stage.sh; needs the nightly toolchain, otherwise it is skipped and recorded as such). known_findings.json lists 1 recorded and 12 repaired defects; seeded/ holds 149 confirmed breaking changes with the check that catches each (DESIGN.md section 12).",
     }
     json.dump(m, open(os.path.join(ROOT, "MANIFEST.json"), "w"), indent=1)
     print("checks:", len(checks), "not_applicable:", len(na))
